@@ -89,13 +89,15 @@ package tls
 // session extensions set through SetSessionTicketExtension / SetPskExtension into uconn.Extensions (C20) -- except
 // for HelloCustom without a spec, where there is nothing to apply.
 //@ func (*UConn).applyPresetByID
-//@   property C20 C03
+//@   property C20 C03 C29 C09
 //@   unchecked safety pre
 //@   note unchecked: thin contract (control flow only)
 //@   requires uconn != nil
 //@   ensures applied: ret == nil && !(old(uconn.clientHelloSpec == nil) && id.Client == helloCustom) ==> called(ApplyPreset, 0) && callres(ApplyPreset, 0) == nil
 //@   ensures applied_spec: called(ApplyPreset, 0) ==> callarg(ApplyPreset, 0, 1) != nil
 //@   ensures custom: old(uconn.clientHelloSpec == nil) && id.Client == helloCustom ==> ret == nil && !called(ApplyPreset, 0)
+//@   ensures randomized_on_conn: called(generateRandomizedSpec, 0) ==> callarg(generateRandomizedSpec, 0, 0) == uconn
+//@   note randomized_on_conn (C29, C09): a randomized spec is generated through the connection's own method, which hands &uconn.ClientHelloID to the generator: the drawn seed and weights are recorded in the connection's ClientHelloID (what Roller stores as the working id and what makes the fingerprint reproducible)
 
 // (*Conn).clientSessionCacheKey (C19: a cached session is never offered for a different server name): the key is
 // the configured ServerName as it is (no normalisation: two different names never share a key), the peer address
